@@ -16,8 +16,9 @@
    not depend on k).  Files, media types and attribute values are N codes; classes are indices (nat) into
    the class table, bases refer to earlier indices (Python creates a class after its bases).
 
-   `flatten` selects the variant: true = the code as it is (flatten after every base);
-   false = the candidate repair (keep the individual lists, Django's own behaviour).
+   `flatten` selects the variant: true = flatten after every base (the code before commit 488c746);
+   false = keep the individual lists, Django's own behaviour (the code as it is now).
+   `eager`: true = the class is resolved before its Media is read (the code since a5a18f6).
 
    Definitions only - proofs are in Media/Proofs.v. *)
 From DJC Require Import Lib.Base.
@@ -170,7 +171,7 @@ Definition cached {V} (l : list (nat * V)) (c : nat) : bool :=
    So such an entry is an alias of the class's current css lists (EAlias) for k > 0 and a value otherwise. *)
 Inductive entry := EAlias | EVal (v : list (list N) * bool).
 
-(* `eager` = candidate repair "resolve the class before its Media is read" (false = the code as it is) *)
+(* `eager` = "the class is resolved before its Media is read" (false = the code before a5a18f6) *)
 Definition entry_val (eager : bool) (t : list cls) (k : N) (res : list nat) (c : nat) (e : entry)
   : list (list N) * bool :=
   match e with
@@ -456,9 +457,11 @@ Fixpoint all2 {A B} (f : A -> B -> bool) (a : list A) (b : list B) : bool :=
   | _, _ => false
   end.
 
-(* the variant of the model that describes /repo's current code *)
-Definition current_flatten : bool := true.
-Definition current_eager : bool := false.
+(* the variant of the model that describes /repo's current code: since 488c746 the individual lists are kept
+   (flatten = false), since a5a18f6 a class is resolved before its Media is read (eager = true).
+   (true, false) is the code before those two commits; see Media/History.v. *)
+Definition current_flatten : bool := false.
+Definition current_eager : bool := true.
 
 Definition check_variant (flatten eager : bool) (cs : list cls * list access * list N * outcome) : bool :=
   let '(t, h, keys, out) := cs in
